@@ -106,6 +106,8 @@ def gen_program(rng, profile="general", payload=None, cap="rand"):
         return gen_chain(rng, payload, cap, side="s")
     if profile == "progress":
         return gen_progress(rng)
+    if profile == "discrace":
+        return gen_discrace(rng)
     if profile == "waiters":
         return gen_waiters(rng)
     if profile == "trystate":
@@ -653,6 +655,52 @@ def gen_trystate(rng):
         procs.append({"phase": 0, "handles": [flav_s], "ops": [{"op": "barrier", "ph": 1}] + w})
     st = {"spin_bias": 0.995, "p_switch": 0.1, "q_tick": 0.0, "tick_phase": 9}
     return {"cap": cap, "payload": rng.choice(["w1", "b3", "h4", "u8", "p5", "z0"]), "procs": procs, "strat": st}
+
+
+def gen_discrace(rng):
+    """C11 / C10: operations that are already waiting (parked, timed, or pending futures about to be polled again with
+    a different waker) race with the event that disconnects or closes the channel: the waiters' next step and the
+    drop of the last handle of the other side / close() start in the same phase (used under a freeze sweep, so that
+    every cut point of the waiter's re-poll or wake-up path meets the complete disconnecting critical section)."""
+    cap = rng.choice([0, 0, 1, 2])
+    side = rng.choice("ssr")
+    other = "r" if side == "s" else "s"
+    nw = rng.choice([1, 1, 2])
+    event = rng.choice(["last_drop", "last_drop", "last_drop2", "close", "close_same"])
+    wside_h = rng.choice(["s", "a"]) + side
+    other_h = rng.choice(["s", "a"]) + other
+    procs = []
+    for i in range(nw):
+        kind = rng.choice(["repoll", "repoll", "repoll2", "sync", "timed", "stream"] if side == "r" else ["repoll", "repoll", "repoll2", "sync", "timed"])
+        m = i + 1
+        pre = []
+        if side == "s" and i == 0:
+            pre = [{"op": "try_send", "h": 0, "m": 100 + j} for j in range(cap)]
+        new = {"op": "asend_new", "h": 0, "f": 0, "m": m} if side == "s" else {"op": "arecv_new", "h": 0, "f": 0}
+        if kind == "repoll":
+            ops = [new, {"op": "poll", "f": 0, "w": 1}, {"op": "barrier", "ph": 1}, {"op": "poll", "f": 0, "w": 2}, {"op": "await", "f": 0, "w": 3}]
+        elif kind == "repoll2":
+            ops = [new, {"op": "poll", "f": 0, "w": 1}, {"op": "poll", "f": 0, "w": 2}, {"op": "barrier", "ph": 1}, {"op": "poll", "f": 0, "w": 1},
+                   {"op": "poll", "f": 0, "w": 3}, {"op": "await", "f": 0, "w": 3}]
+        elif kind == "stream":
+            ops = [{"op": "stream_new", "h": 0, "f": 0}, {"op": "poll", "f": 0, "w": 1}, {"op": "barrier", "ph": 1}, {"op": "poll", "f": 0, "w": 2},
+                   {"op": "await", "f": 0, "w": 3}]
+        elif kind == "sync":
+            ops = [{"op": "send", "h": 0, "m": m}] if side == "s" else [{"op": rng.choice(["recv", "iter_next"]), "h": 0}]
+        else:
+            ops = [{"op": rng.choice(["send_timeout", "send_option_timeout"]), "h": 0, "m": m, "d": 400}] if side == "s" else [{"op": "recv_timeout", "h": 0, "d": 400}]
+        procs.append({"phase": 0, "handles": [wside_h], "ops": pre + ops})
+    b = [{"op": "barrier", "ph": 1}]
+    if event == "last_drop":
+        procs.append({"phase": 0, "handles": [other_h], "ops": b + [{"op": "drop", "h": 0}]})
+    elif event == "last_drop2":
+        procs.append({"phase": 0, "handles": [other_h, other_h], "ops": b + [{"op": "drop", "h": 0}, {"op": "drop", "h": 1}]})
+    elif event == "close":
+        procs.append({"phase": 0, "handles": [other_h], "ops": b + [{"op": "close", "h": 0}]})
+    else:
+        procs.append({"phase": 0, "handles": [wside_h, other_h], "ops": b + [{"op": "close", "h": 0}]})
+    st = {"spin_bias": 0.995, "p_switch": rng.choice([0.05, 0.2]), "q_tick": 0.0, "tick_phase": 9}
+    return {"cap": cap, "payload": rng.choice(["w1", "b3", "h4", "u8", "p5"]), "procs": procs, "strat": st}
 
 
 def gen_mutex(rng, freeze=False):
